@@ -11,6 +11,8 @@ func TestVerifReplay(t *testing.T) {
 		"VerifC01Quick":    VerifC01Quick,
 		"VerifC01Thorough": VerifC01Thorough,
 		"VerifC17Walks":    VerifC17Walks,
+		"VerifC05Quick":    VerifC05Quick,
+		"VerifC17Walks2":   VerifC17Walks2,
 		"VerifC18Quick":    VerifC18Quick,
 		"VerifC18Thorough": VerifC18Thorough,
 		"VerifC03Quick":    VerifC03Quick,
